@@ -119,25 +119,48 @@ Qed.
 (* ------------------------------------------------------------------ *)
 (* the cache under arbitrary interleavings                              *)
 
-Lemma exec_correct compute : forall evs cache,
+(* tie T: the cache is keyed by the full tenant name *)
+Lemma cache_key_is_tenant_true : cache_key_is_tenant = true.
+Proof. reflexivity. Qed.
+
+Lemma exec_gen_keyed_correct compute slot : forall evs cache,
   (forall p, In p cache -> snd p = compute (fst p)) ->
-  forall t r, In (t, r) (exec compute cache evs) -> r = compute t.
+  forall t r, In (t, r) (exec_gen compute true slot cache evs) -> r = compute t.
 Proof.
   induction evs as [|e evs IH]; intros cache Hinv t r Hin; simpl in Hin; [contradiction|].
   destruct e as [t0|t0].
   - destruct Hin as [Heq|Hin]; [|eapply IH; eauto].
-    inversion Heq; subst. unfold cget. destruct (find (fun p => (fst p =? t)%Z) cache) as [p|] eqn:F; [|reflexivity].
+    inversion Heq; subst. unfold cget_gen, same_key.
+    destruct (find (fun p => (fst p =? t)%Z) cache) as [p|] eqn:F; [|reflexivity].
     apply find_some in F as [Hp Ht]. apply Z.eqb_eq in Ht. rewrite (Hinv p Hp), Ht. reflexivity.
   - destruct (compute t0) eqn:C.
     + eapply IH; [|exact Hin]. intros p [<-|Hp]; [simpl; symmetry; exact C|auto].
     + eapply IH; eauto.
 Qed.
 
+Lemma exec_correct compute : forall evs cache,
+  (forall p, In p cache -> snd p = compute (fst p)) ->
+  forall t r, In (t, r) (exec compute cache evs) -> r = compute t.
+Proof. unfold exec. rewrite cache_key_is_tenant_true. apply exec_gen_keyed_correct. Qed.
+
+(* a cache that finds entries through a slot function without comparing the tenant
+   names answers wrongly as soon as two tenants with different routes share a slot:
+   serve t1, then ask for t2 *)
+Lemma slot_cache_misroutes compute slot t1 t2 i :
+  slot t1 = slot t2 -> compute t1 = RIdx i -> compute t2 <> RIdx i ->
+  exists r, In (t2, r) (exec_gen compute false slot [] [Lookup t1; Store t1; Lookup t2]) /\ r <> compute t2.
+Proof.
+  intros Hs H1 H2. exists (RIdx i). simpl. rewrite H1. simpl.
+  unfold cget_gen, same_key. simpl. rewrite Hs, Z.eqb_refl. simpl.
+  split; [right; left; reflexivity|]. intro E. apply H2. symmetry. exact E.
+Qed.
+
+
 (* pred_ok holds of the model's own answers however often they are repeated *)
 Lemma pred_ok_model tenant cfgs n m :
   pred_ok (CRoute [Q tenant cfgs (repeat (route 0 cfgs tenant) (S n)) (repeat (route 0 cfgs tenant) m)]) = true.
 Proof.
-  simpl. rewrite andb_true_r, route_poss_single. simpl.
+  simpl. unfold pred_qs. simpl. rewrite andb_true_r, route_poss_single. simpl.
   assert (R : forall a, rres_eqb a a = true) by (intros [i|]; simpl; [apply Nat.eqb_refl|reflexivity]).
   rewrite !R. simpl. rewrite andb_true_r.
   apply forallb_forall. intros x Hx. apply in_app_or in Hx as [Hx|Hx]; apply repeat_spec in Hx; subst; apply R.
